@@ -427,6 +427,26 @@ def jobs(tier):
                     probs=[[0.9, 0.5, 0.2], [0.95, 0.6, 0.3],
                            [0.8, 0.75, 0.1], [1.0, 0.9, 0.0]][k_],
                     ranks=rk), dict(FACADE, max_decisions=40000)))
+        # percentiles with a third decimal (0.025 / 0.975, 0.075 / 0.925,
+        # 0.125 / 0.875) and sample sizes with a rank strictly between such a
+        # percentile and its neighbours with two decimals (1/34, 33/34, 1/13,
+        # 5/40, 35/40 ...)
+        for n_ in ((13, 34) if q else (13, 34, 40, 27)):
+            for rk in (list(range(n_)), [(7 * j + 3) % n_
+                                         for j in range(n_)]):
+                out.append(('bands', 'case_bands', dict(
+                    figure=f, times=[1.0], n_samples=[n_],
+                    probs=[0.95, 0.85, 0.75], ranks=rk),
+                    dict(FACADE, max_decisions=200000)))
+        # many samples (what predictive models deliver): with 200 samples a
+        # percentile that is off by half a percent moves a limit by a rank
+        for n_ in ((200,) if q else (200, 150, 320)):
+            for rk in (list(range(n_)), [(7 * j + 3) % n_
+                                         for j in range(n_)]):
+                out.append(('bands', 'case_bands', dict(
+                    figure=f, times=[1.0], n_samples=[n_],
+                    probs=[0.95, 0.99, 0.85], ranks=rk),
+                    dict(FACADE, max_decisions=2000000)))
         for n_, probs in big:
             out.append(('bands', 'case_bands', dict(
                 figure=f, times=[1.0], n_samples=[n_], probs=probs,
@@ -445,10 +465,14 @@ BOUNDS = dict(
           'bulk probabilities incl. 0 and 1: every weak ordering of the '
           'samples is a path; 5 pairwise distinct samples (every strict '
           'ordering); 8, 12 and 20 samples in 4 fixed strict orderings '
-          '(sorted, reversed, two scrambled) with 3 probabilities each; '
+          '(sorted, reversed, two scrambled) with 3 probabilities each; 13 '
+          'and 34 samples in 2 orderings with the probabilities 0.95, 0.85, '
+          '0.75 (percentiles with a third decimal); 200 samples in 2 '
+          'orderings with 0.95, 0.99, 0.85; '
           'frames with repeated index labels and / or a sample without value',
     thorough='every pair of layouts; up to 5 samples with ties, 6-7 distinct '
-             'in every strict ordering, 30 samples in 4 orderings',
+             'in every strict ordering, 30 samples in 4 orderings, 150 / 200 / '
+             '320 samples in 2 orderings',
     outside='residual plots and the other figure classes of chi.plots; '
             'plotly rendering beyond the trace arrays; more samples per time '
             'point (the number of weak orderings grows factorially)')
